@@ -1,6 +1,7 @@
 import ImathVerif.Spec.MatSpec
 import ImathVerif.Gen.C10Quat
 import ImathVerif.Gen.C10Algo
+import ImathVerif.Gen.C10Interp
 import ImathVerif.Lemmas.C10Lemmas
 import Mathlib.Tactic.Ring
 import Mathlib.Tactic.LinearCombination
@@ -485,5 +486,158 @@ theorem Quat_setAxisAngle_unit {α : Type} [Field α] [LinearOrder α] [IsStrict
   generalize sqrt (axis.x * axis.x + axis.y * axis.y + axis.z * axis.z) = l at hl hll
   field_simp
   linear_combination (l * l) * h1 - (sin (a / 2) * sin (a / 2)) * hll
+
+/-! ## slerp, slerpShortestArc, squad, spline, intermediate
+
+PROVED here: the structure of `slerp` (normalised linear combination with the `sinx_over_x` weights, all 16 paths),
+unit length of EVERY result of slerp / slerpShortestArc / intermediate (they end in `normalize`), the end points
+`slerp (q1, q2, 0) = q1`, `slerp (q1, q2, 1) = q2`, `slerpShortestArc` = slerp towards `q2` or `-q2` according to the
+sign of `q1 ^ q2`, and that squad / spline pass through their end keys.
+NOT proved (MEASURED by c10_residue: partial): that the 4-D angle advances linearly in t (constant angular
+velocity), that the shortest-arc variant never exceeds 90°, interior behaviour of squad / spline and the
+continuity of the tangent across consecutive spline segments. -/
+
+theorem slerp_eq {α : Type} [Field α] [LinearOrder α] [IsStrictOrderedRing α] (teps : α) (sqrt sin : α → α)
+    (atan2 : α → α → α) (q1 q2 : Quat α) (t : α) :
+    Gen.C10.Quat.slerp teps sqrt sin atan2 q1 q2 t =
+      Gen.C10.Quat.normalize sqrt
+        (lincomb (Gen.C10.sinx_over_x teps sin ((1 - t) * Gen.C10.Quat.angle4D sqrt atan2 q1 q2) /
+                    Gen.C10.sinx_over_x teps sin (Gen.C10.Quat.angle4D sqrt atan2 q1 q2) * (1 - t)) q1
+                 (Gen.C10.sinx_over_x teps sin (t * Gen.C10.Quat.angle4D sqrt atan2 q1 q2) /
+                    Gen.C10.sinx_over_x teps sin (Gen.C10.Quat.angle4D sqrt atan2 q1 q2) * t) q2) := by
+  simp only [Gen.C10.Quat.slerp, Gen.C10.sinx_over_x, Gen.C10.Quat.angle4D, lincomb]
+  repeat' (split_ifs with hc <;> simp only [hc, ↓reduceIte])
+  all_goals simp only [Gen.C10.Quat.normalize, *, ↓reduceIte]
+
+/-- `normalize` ALWAYS returns a unit quaternion (the identity for a zero-length input) -/
+theorem Quat_normalize_always_unit {α : Type} [Field α] [LinearOrder α] [IsStrictOrderedRing α] (sqrt : α → α)
+    (hsqrt : SqrtSpec sqrt) (q : Quat α) : UnitQ (Gen.C10.Quat.normalize sqrt q) := by
+  simp only [Gen.C10.Quat.normalize]
+  split_ifs with hc
+  · exact unit_identity
+  · exact unit_of_div hsqrt _ _ _ _ hc
+
+theorem slerp_unit {α : Type} [Field α] [LinearOrder α] [IsStrictOrderedRing α] (teps : α) (sqrt sin : α → α)
+    (atan2 : α → α → α) (hsqrt : SqrtSpec sqrt) (q1 q2 : Quat α) (t : α) :
+    UnitQ (Gen.C10.Quat.slerp teps sqrt sin atan2 q1 q2 t) := by
+  rw [slerp_eq]; exact Quat_normalize_always_unit sqrt hsqrt _
+
+theorem slerpShortestArc_eq {α : Type} [Field α] [LinearOrder α] [IsStrictOrderedRing α] (teps : α) (sqrt sin : α → α)
+    (atan2 : α → α → α) (q1 q2 : Quat α) (t : α) :
+    Gen.C10.Quat.slerpShortestArc teps sqrt sin atan2 q1 q2 t =
+      if 0 ≤ Gen.C10.Quat.dot4 q1 q2 then Gen.C10.Quat.slerp teps sqrt sin atan2 q1 q2 t
+      else Gen.C10.Quat.slerp teps sqrt sin atan2 q1 (Gen.C10.Quat.neg q2) t := by
+  by_cases h : 0 ≤ Gen.C10.Quat.dot4 q1 q2
+  · rw [if_pos h]
+    simp only [Gen.C10.Quat.dot4] at h
+    simp only [Gen.C10.Quat.slerpShortestArc, Gen.C10.Quat.slerp, h, ↓reduceIte]
+  · rw [if_neg h]
+    simp only [Gen.C10.Quat.dot4] at h
+    simp only [Gen.C10.Quat.slerpShortestArc, Gen.C10.Quat.slerp, Gen.C10.Quat.neg, h, ↓reduceIte]
+    rfl
+
+
+theorem slerpShortestArc_unit {α : Type} [Field α] [LinearOrder α] [IsStrictOrderedRing α] (teps : α) (sqrt sin : α → α)
+    (atan2 : α → α → α) (hsqrt : SqrtSpec sqrt) (q1 q2 : Quat α) (t : α) :
+    UnitQ (Gen.C10.Quat.slerpShortestArc teps sqrt sin atan2 q1 q2 t) := by
+  rw [slerpShortestArc_eq]; split_ifs <;> exact slerp_unit teps sqrt sin atan2 hsqrt _ _ t
+
+set_option maxHeartbeats 1000000 in
+theorem intermediate_unit {α : Type} [Field α] [LinearOrder α] [IsStrictOrderedRing α] (tmin tmax : α)
+    (sqrt sin cos acos : α → α) (hsqrt : SqrtSpec sqrt) (q0 q1 q2 : Quat α) :
+    UnitQ (Gen.C10.Quat.intermediate tmin tmax sqrt sin cos acos q0 q1 q2) := by
+  simp only [Gen.C10.Quat.intermediate]
+  repeat' (apply UnitQ_ite <;> intro hc)
+  all_goals first | exact unit_identity | exact unit_of_div hsqrt _ _ _ _ hc
+
+theorem Quat_normalize_of_unit_simp {α : Type} [Field α] [LinearOrder α] [IsStrictOrderedRing α] (sqrt : α → α)
+    (hsqrt : SqrtSpec sqrt) (q : Quat α) (hq : UnitQ q) : Gen.C10.Quat.normalize sqrt q = q := by
+  have h1 : sqrt 1 = 1 := C08.sqrt_unique hsqrt zero_le_one (one_mul 1)
+  simp only [UnitQ, normSq] at hq
+  simp only [Gen.C10.Quat.normalize, hq, h1]
+  simp
+
+/-- slerp at t = 0 is q1 and at t = 1 is q2 (q1, q2 unit, `sinx_over_x (angle4D q1 q2) ≠ 0`, i.e. q1 ≠ -q2) -/
+theorem slerp_endpoints {α : Type} [Field α] [LinearOrder α] [IsStrictOrderedRing α] (teps : α) (sqrt sin : α → α)
+    (atan2 : α → α → α) (hsqrt : SqrtSpec sqrt) (q1 q2 : Quat α) (h1 : UnitQ q1) (h2 : UnitQ q2)
+    (hsx : Gen.C10.sinx_over_x teps sin (Gen.C10.Quat.angle4D sqrt atan2 q1 q2) ≠ 0) :
+    Gen.C10.Quat.slerp teps sqrt sin atan2 q1 q2 0 = q1 ∧ Gen.C10.Quat.slerp teps sqrt sin atan2 q1 q2 1 = q2 := by
+  constructor
+  · rw [slerp_eq]
+    simp only [sub_zero, one_mul, mul_one, mul_zero, div_self hsx, lincomb_one_zero]
+    exact Quat_normalize_of_unit_simp sqrt hsqrt q1 h1
+  · rw [slerp_eq]
+    simp only [sub_self, one_mul, mul_one, mul_zero, div_self hsx, lincomb_zero_one]
+    exact Quat_normalize_of_unit_simp sqrt hsqrt q2 h2
+
+/-- squad passes through its end keys: `squad (q1, qa, qb, q2, 0) = q1`, `squad (q1, qa, qb, q2, 1) = q2` -/
+theorem squad_keys {α : Type} [Field α] [LinearOrder α] [IsStrictOrderedRing α] (teps : α) (sqrt sin : α → α)
+    (atan2 : α → α → α) (hsqrt : SqrtSpec sqrt) (q1 qa qb q2 : Quat α)
+    (h1 : UnitQ q1) (h2 : UnitQ q2) (ha : UnitQ qa) (hb : UnitQ qb)
+    (h12 : Gen.C10.sinx_over_x teps sin (Gen.C10.Quat.angle4D sqrt atan2 q1 q2) ≠ 0)
+    (hab : Gen.C10.sinx_over_x teps sin (Gen.C10.Quat.angle4D sqrt atan2 qa qb) ≠ 0)
+    (h1a : Gen.C10.sinx_over_x teps sin (Gen.C10.Quat.angle4D sqrt atan2 q1 qa) ≠ 0)
+    (h2b : Gen.C10.sinx_over_x teps sin (Gen.C10.Quat.angle4D sqrt atan2 q2 qb) ≠ 0) :
+    Gen.C10.Quat.squad teps sqrt sin atan2 q1 qa qb q2 0 = q1 ∧
+    Gen.C10.Quat.squad teps sqrt sin atan2 q1 qa qb q2 1 = q2 := by
+  obtain ⟨e1, e2⟩ := slerp_endpoints teps sqrt sin atan2 hsqrt q1 q2 h1 h2 h12
+  obtain ⟨e3, e4⟩ := slerp_endpoints teps sqrt sin atan2 hsqrt qa qb ha hb hab
+  obtain ⟨e5, _⟩ := slerp_endpoints teps sqrt sin atan2 hsqrt q1 qa h1 ha h1a
+  obtain ⟨e6, _⟩ := slerp_endpoints teps sqrt sin atan2 hsqrt q2 qb h2 hb h2b
+  constructor
+  · simp only [Gen.C10.Quat.squad]
+    rw [show (2 : α) * 0 * (1 - 0) = 0 by ring, e1, e3, e5]
+  · simp only [Gen.C10.Quat.squad]
+    rw [show (2 : α) * 1 * (1 - 1) = 0 by ring, e2, e4, e6]
+
+/-- over ℝ with the real functions: the only hypothesis left is `q1 ≠ -q2` (as the header says) -/
+theorem slerp_endpoints_real (teps : ℝ) (hteps : 0 < teps) (q1 q2 : Quat ℝ) (h1 : UnitQ q1) (h2 : UnitQ q2)
+    (hne : q1 ≠ Gen.C10.Quat.neg q2) :
+    Gen.C10.Quat.slerp teps Real.sqrt Real.sin ratan2 q1 q2 0 = q1 ∧
+    Gen.C10.Quat.slerp teps Real.sqrt Real.sin ratan2 q1 q2 1 = q2 :=
+  slerp_endpoints teps Real.sqrt Real.sin ratan2 real_sqrt_spec q1 q2 h1 h2
+    (sinx_over_x_angle4D_ne_zero teps hteps q1 q2 hne)
+example : UnitQ (⟨1, ⟨0, 0, 0⟩⟩ : Quat ℝ) ∧ UnitQ (⟨0, ⟨1, 0, 0⟩⟩ : Quat ℝ) ∧
+    (⟨1, ⟨0, 0, 0⟩⟩ : Quat ℝ) ≠ Gen.C10.Quat.neg ⟨0, ⟨1, 0, 0⟩⟩ := by
+  refine ⟨by norm_num [UnitQ, normSq], by norm_num [UnitQ, normSq], ?_⟩
+  intro h; have := congrArg Quat.r h; norm_num [Gen.C10.Quat.neg] at this
+
+theorem squad_keys_real (teps : ℝ) (hteps : 0 < teps) (q1 qa qb q2 : Quat ℝ)
+    (h1 : UnitQ q1) (h2 : UnitQ q2) (ha : UnitQ qa) (hb : UnitQ qb)
+    (h12 : q1 ≠ Gen.C10.Quat.neg q2) (hab : qa ≠ Gen.C10.Quat.neg qb) (h1a : q1 ≠ Gen.C10.Quat.neg qa)
+    (h2b : q2 ≠ Gen.C10.Quat.neg qb) :
+    Gen.C10.Quat.squad teps Real.sqrt Real.sin ratan2 q1 qa qb q2 0 = q1 ∧
+    Gen.C10.Quat.squad teps Real.sqrt Real.sin ratan2 q1 qa qb q2 1 = q2 :=
+  squad_keys teps Real.sqrt Real.sin ratan2 real_sqrt_spec q1 qa qb q2 h1 h2 ha hb
+    (sinx_over_x_angle4D_ne_zero teps hteps _ _ h12) (sinx_over_x_angle4D_ne_zero teps hteps _ _ hab)
+    (sinx_over_x_angle4D_ne_zero teps hteps _ _ h1a) (sinx_over_x_angle4D_ne_zero teps hteps _ _ h2b)
+
+/-- `spline (q0, q1, q2, q3, t) = squad (q1, intermediate (q0,q1,q2), intermediate (q1,q2,q3), q2, t)` -/
+theorem spline_eq_squad {α : Type} [Field α] [LinearOrder α] [IsStrictOrderedRing α] (tmin tmax teps : α)
+    (sqrt sin cos acos : α → α) (atan2 : α → α → α) (q0 q1 q2 q3 : Quat α) (t : α) :
+    Gen.C10.Quat.spline tmin tmax teps sqrt sin cos acos atan2 q0 q1 q2 q3 t =
+      Gen.C10.Quat.squad teps sqrt sin atan2 q1 (Gen.C10.Quat.intermediate tmin tmax sqrt sin cos acos q0 q1 q2)
+        (Gen.C10.Quat.intermediate tmin tmax sqrt sin cos acos q1 q2 q3) q2 t := by
+  simp only [Gen.C10.Quat.spline, Gen.C10.Quat.squad]
+
+/-- spline passes through its keys q1 (t = 0) and q2 (t = 1) for unit keys in non-degenerate position
+(no pair of slerp arguments antipodal) -/
+theorem spline_keys {α : Type} [Field α] [LinearOrder α] [IsStrictOrderedRing α] (tmin tmax teps : α)
+    (sqrt sin cos acos : α → α) (atan2 : α → α → α) (hsqrt : SqrtSpec sqrt) (q0 q1 q2 q3 : Quat α)
+    (h1 : UnitQ q1) (h2 : UnitQ q2)
+    (h12 : Gen.C10.sinx_over_x teps sin (Gen.C10.Quat.angle4D sqrt atan2 q1 q2) ≠ 0)
+    (hab : Gen.C10.sinx_over_x teps sin (Gen.C10.Quat.angle4D sqrt atan2
+      (Gen.C10.Quat.intermediate tmin tmax sqrt sin cos acos q0 q1 q2)
+      (Gen.C10.Quat.intermediate tmin tmax sqrt sin cos acos q1 q2 q3)) ≠ 0)
+    (h1a : Gen.C10.sinx_over_x teps sin (Gen.C10.Quat.angle4D sqrt atan2 q1
+      (Gen.C10.Quat.intermediate tmin tmax sqrt sin cos acos q0 q1 q2)) ≠ 0)
+    (h2b : Gen.C10.sinx_over_x teps sin (Gen.C10.Quat.angle4D sqrt atan2 q2
+      (Gen.C10.Quat.intermediate tmin tmax sqrt sin cos acos q1 q2 q3)) ≠ 0) :
+    Gen.C10.Quat.spline tmin tmax teps sqrt sin cos acos atan2 q0 q1 q2 q3 0 = q1 ∧
+    Gen.C10.Quat.spline tmin tmax teps sqrt sin cos acos atan2 q0 q1 q2 q3 1 = q2 := by
+  rw [spline_eq_squad, spline_eq_squad]
+  exact squad_keys teps sqrt sin atan2 hsqrt q1 _ _ q2 h1 h2
+    (intermediate_unit tmin tmax sqrt sin cos acos hsqrt q0 q1 q2)
+    (intermediate_unit tmin tmax sqrt sin cos acos hsqrt q1 q2 q3) h12 hab h1a h2b
 
 end ImathVerif.C10
